@@ -36,12 +36,20 @@ N == Len(Ev)
 Gfx == Tr.gfx
 Id == Tr.ident
 
+\* canvas LIFETIME: a "release" event = the application dropped its reference to the canvas it passed to
+\* draw_screen last (as urwid's MainLoop does after every draw_screen); a frame urwid did not paint is then
+\* dead and the next canvas may be allocated at its address.  The next "redraw" event is a NEW canvas and is
+\* judged exactly as any other (bookkeeping clauses + placements); a "same" event needs a live object.
+CanvasOps == {i \in 1..l : Ev[i].op \in {"redraw", "bad", "lost", "release"}}
+CanvasReleased == CanvasOps # {} /\ Ev[CHOOSE i \in CanvasOps : \A j \in CanvasOps : j <= i].op = "release"
+
 OK == [v |-> "ok", at |-> 0, info |-> "", alias |-> FALSE, topimg |-> FALSE, n |-> 0, ctx |-> ""]
 \* ctx: in which situation the event happened (part of the finding's signature)
 CtxOf(e) ==
   IF e.op \in {"redraw", "same", "bad", "lost"}
     THEN IF TopLeaf(e.lay) THEN (IF cv # {} THEN "non-composite-after-images" ELSE "non-composite")
-         ELSE IF e.op = "bad" THEN "failing-draw" ELSE IF e.op = "lost" THEN "dropped-frame" ELSE "composite"
+         ELSE IF e.op = "bad" THEN "failing-draw" ELSE IF e.op = "lost" THEN "dropped-frame"
+         ELSE IF e.op = "redraw" /\ CanvasReleased THEN "after-released-canvas" ELSE "composite"
     ELSE IF e.op = "climg" THEN (IF e.now THEN "clear_images-now" ELSE "clear_images") ELSE e.op
 V(v, info, n) == [v |-> v, at |-> l + 1, info |-> info, alias |-> FALSE, topimg |-> FALSE, n |-> n,
                   ctx |-> CtxOf(Ev[l + 1])]
@@ -107,6 +115,8 @@ RedrawCore(e, free0, T1, P, implied, shown, fullT) ==
       leafy == TopLeaf(e.lay)
       pv == IF ~wf THEN V("bad-layout", "", 0)
             ELSE IF ~Tiles(P, Tr.cols, Tr.rows) THEN V("bad-layout", "pieces do not tile the screen", 0)
+            ELSE IF samecanvas /\ CanvasReleased
+                   THEN V("bad-layout", "the same canvas is drawn after the application released it", 0)
             ELSE IF e.exc # expexc THEN V("exception", e.exc, 0)
             ELSE IF T1.err # "" THEN V("terminal-error", T1.err, 0)
             ELSE IF T1.scrolls > 0 THEN V("terminal-error", "the screen scrolled", 0)
